@@ -408,6 +408,11 @@ def _who_may_mutate(ctx: Ctx, m: pf.Module, fn: pf.FuncDef, where: str, result: 
                         bad(st, f'`{pf.nsrc(st)}` puts a bunch in FRONT of the bunches flushed so far', 'result')
                     else:
                         raise AnalysisError(f'{where}: `{pf.nsrc(st)}` re-binds the result list (not analysed)')
+                elif isinstance(t, ast.Name) and t.id == bunch and isinstance(st, ast.AugAssign):
+                    if isinstance(st.op, ast.Add):
+                        ok(st, 'extends at the end')
+                    else:
+                        raise AnalysisError(f'{where}: `{pf.nsrc(st)}` not analysed')
                 elif isinstance(t, ast.Name) and t.id == bunch and st.value is not None and not isinstance(st, ast.AugAssign):
                     v = st.value
                     front = (isinstance(v, ast.BinOp) and isinstance(v.op, ast.Add) and isinstance(v.right, ast.Name) and v.right.id == bunch) or \
@@ -1393,7 +1398,29 @@ def _spec_lists_keep_order(ctx: Ctx, m: pf.Module) -> None:
                 if isinstance(p.ctx, ast.Load):
                     continue
                 raise AnalysisError(f'{F}: `{txt}` assigns into `{attr}` (not analysed)')
-            if isinstance(p, ast.Call) and any(a is node for a in p.args):
+            if isinstance(p, ast.keyword) and isinstance(par.get(p), ast.Call):
+                p = par[p]
+            if isinstance(p, (ast.Assign, ast.AnnAssign)) and p.value is node and isinstance(p.targets[0] if isinstance(p, ast.Assign) else p.target, ast.Name) \
+                    and (not isinstance(p, ast.Assign) or len(p.targets) == 1):
+                # a local alias of the list: every use of the alias in that function must be a plain read (argument of _create_bunches / a pure builtin, iteration)
+                al = (p.targets[0] if isinstance(p, ast.Assign) else p.target).id  # type: ignore[union-attr]
+                fdef = m.enclosing_func(node)
+                ok_alias = fdef is not None and len(pf.assignments(fdef).get(al, [])) == 1
+                for x in (ast.walk(fdef) if ok_alias else []):
+                    if isinstance(x, ast.Name) and x.id == al and isinstance(x.ctx, ast.Load):
+                        px = par.get(x)
+                        if isinstance(px, ast.keyword):
+                            px = par.get(px)
+                        fn_ = (pf.dotted(px.func) or '') if isinstance(px, ast.Call) else ''
+                        if isinstance(px, ast.Call) and px.func is not x and ((isinstance(px.func, ast.Name) and px.func.id in facts.PURE_FUNCS) or fn_.endswith('._create_bunches')):
+                            continue
+                        if isinstance(px, (ast.For, ast.AsyncFor, ast.comprehension)) and px.iter is x:
+                            continue
+                        ok_alias = False
+                if ok_alias:
+                    continue
+                raise AnalysisError(f'{F}: `{txt}` aliases `{attr}` and the alias is used in a way that is not analysed')
+            if isinstance(p, ast.Call) and (any(a is node for a in p.args) or any(k.value is node for k in p.keywords)):
                 fname = pf.dotted(p.func) or ''
                 if fname.split('.')[-1] == 'shuffle':
                     bad.append((p, f'`{txt}` shuffles the list'))
